@@ -25,6 +25,10 @@ Three independent pieces per case (DESIGN.md §7 C20):
 (c) END-TO-END ORACLE: the file the CLI wrote is compared (as a parsed structure, 1e-6) with the file written by
     the equivalent API pipeline run under the same `random`/`numpy.random` seed; find-only: the printed matches equal
     the API's matches as a set of sorted tuples.
+(d) BY-CONSTRUCTION ORACLES (c20_effects.py): worlds for which the matches to report and the file to write are known from
+    the way the input was built — the tolerance judged by its effect on copies deformed by a known amount in every
+    orientation, and the force-field terms after a re-parameterising replacement on rings; judged on the written file with
+    the check's own readers (the command line and the API share the search and the merge code: (c) is blind to a defect there).
 """
 import ast
 import builtins
@@ -42,6 +46,7 @@ import traceback
 from fractions import Fraction
 
 from .. import core
+from . import c20_effects as fx
 
 RULE = ("worlds: generated periodic structures (orthorhombic; a separate triclinic stream) of 15-35 atoms with 2-5 planted "
         "copies (cube rotations, wrapped across the boundary, one optional copy perturbed by 0.07 A so that --atol 0.1 vs "
@@ -51,7 +56,15 @@ RULE = ("worlds: generated periodic structures (orthorhombic; a separate triclin
         "chargefile{no,yes} x pp{off,on} x mode{none,find,find+replace,replace-without-find} x input format x pattern "
         "format x output format; plus streams: docs examples (uio66), ASE in/out + dump file, no-cell rejections, "
         "--framework-element (known finding), LAMMPS inputs with atoms stored up to two cells outside the unit cell; every output is also "
-        "read by the check's own reader and compared with the INPUT DATA (unreplaced atoms keep element and stored coordinates); every case also feeds the execution tie and the argument-vector tie, plus 200 "
+        "read by the check's own reader and compared with the INPUT DATA (unreplaced atoms keep element and stored coordinates); "
+        "BY-CONSTRUCTION worlds (c20_effects): (i) 5-7 copies of a 2-4 atom pattern, each with its far end moved along the pattern's long "
+        "axis by a known d (0, +-0.5..0.75 x the small atol, +-0.5..0.75 x the big atol, +-2.75..3 x), long axis along a Cartesian axis / "
+        "a diagonal / a general direction, wrapped across the boundary, ortho and triclinic, inputs lmpdat/cif/cml, --atol default/0.02 and "
+        "0.1/0.2, find-only and replace, +-replicate, hints on the long axis: copies with |d| <= 0.8 atol must be reported / replaced, with "
+        "|d| >= 2.5 atol must not; (ii) LAMMPS inputs with bonds/angles/dihedrals/impropers and coefficient tables holding 2-3 copies of a "
+        "3- or 4-membered ring with substituents, replacement pattern = the same atoms (+ optionally one atom) carrying 2-4 re-defined terms "
+        "(listed forwards or backwards, also terms new to the structure), -p default/0.5, +-replicate, conversion / find-only: the terms of "
+        "the written file are the input's, minus those re-defined between the same atoms in the same roles, plus the replacement's; every case also feeds the execution tie and the argument-vector tie, plus 200 "
         "(quick) / 3000 (thorough) generated command lines, half of them with one defect. Non-trivial = distinct input in which at least one option beyond "
         "input/output reaches a library call.")
 
@@ -336,7 +349,9 @@ def materialise(world, T):
     fmt = world["in_fmt"]
     sb = world.get("bonds", []) if world.get("with_bonds") else []
     if fmt == "lmpdat":
-        if world.get("split_types"):
+        if world.get("ff") is not None:
+            fx.write_ff_lmpdat(os.path.join(T, "in.lmpdat"), rows, cell, world["ff"])      # input with force-field terms
+        elif world.get("split_types"):
             write_lmpdat_typed(os.path.join(T, "in.lmpdat"), rows, cell, sb)
         else:
             write_lmpdat(os.path.join(T, "in.lmpdat"), rows, cell, sb)
@@ -353,6 +368,9 @@ def materialise(world, T):
     else:
         write_lmpdat(os.path.join(T, "p.lmpdat"), world["pattern"], None, world["pattern_bonds"], charges=False)
         write_lmpdat(os.path.join(T, "r.lmpdat"), world["repl"], None, world["repl_bonds"], charges=False)
+    if world.get("repl_ff") is not None:
+        # a replacement pattern that carries force-field terms is a LAMMPS data file whatever the pattern's format is
+        fx.write_ff_lmpdat(os.path.join(T, "r.lmpdat"), world["repl"], None, world["repl_ff"])
     with open(os.path.join(T, "q.txt"), "w") as f:
         for v in world["chargefile"]:
             f.write("%r\n" % fl(v))
@@ -470,7 +488,7 @@ def opts_of_row(row, world):
         o["ap1"], o["ap2"], o["op"] = 2, 0, 1
     elif h == "0--":
         o["ap1"] = 0
-    assert n >= 3
+    assert n >= 3 or h == "none"
     o["replicate"] = row["replicate"]
     diag = [fr(world["cell"][i][i]) for i in range(3)]
     if row["mic"] == "small":
@@ -1840,6 +1858,12 @@ def run_case(world, o, seed):
                 api_exc = e
             if exc is not None or api_exc is not None:
                 info["both_raise"] = exc is not None and api_exc is not None
+                if exc is not None and fx.must_succeed(world, o):
+                    tb = "".join(traceback.format_exception(*res.exc_info))[-1200:] if res.exc_info else ""
+                    failures.append(("the run fails although the copies of the pattern in this world are disjoint and every "
+                                     "file is well-formed, by construction: %r" % (exc,),
+                                     {"cli_exception": repr(exc), "api_exception": repr(api_exc), "cli_traceback": tb,
+                                      "argv": [unsub(x, T) for x in argv(o, T)]}, "the output file is written", []))
                 if (exc is None) != (api_exc is None) or err_kind(exc) != err_kind(api_exc):
                     tb = ""
                     if exc is not None and res.exc_info:
@@ -1895,6 +1919,28 @@ def run_case(world, o, seed):
                                          + (" outside the replaced patterns" if (o["find"] and o["replace"]) else "")
                                          + ": " + bad, {"argv": [unsub(x, T) for x in argv(o, T)]},
                                          "every input atom that is not replaced keeps its element and its stored coordinates", []))
+                    # worlds whose result is known by construction (c20_effects): the tolerance by its effect, and
+                    # the force-field terms after a re-parameterising replacement
+                    if "tol" in world:
+                        rep_m = None
+                        if o["find"] and not o["replace"]:
+                            _, rep_m = parse_matches(res.stdout if hasattr(res, "stdout") else res.output)
+                        bad = fx.oracle_tolerance(world, o, out_cli, rep_m)
+                        if bad:
+                            failures.append(("the tolerance given on the command line is not the one the search applies: " + bad,
+                                             {"argv": [unsub(x, T) for x in argv(o, T)]},
+                                             "copies deformed by at most 0.8 x atol are matched / replaced, copies deformed by "
+                                             "2.5 x atol or more are not, in every orientation", []))
+                        info["tolerance_checked"] = True
+                    if "ff" in world:
+                        bad = fx.oracle_terms(world, o, out_cli)
+                        if bad:
+                            failures.append(("the file written by the command line does not describe the structure that load, "
+                                             "replace, save gives for these files: " + bad,
+                                             {"argv": [unsub(x, T) for x in argv(o, T)]},
+                                             "the input's force-field terms, those re-defined by the replacement pattern (same "
+                                             "atoms, same roles) overridden, the replacement's terms added", []))
+                        info["terms_checked"] = True
                     # --pp, independent expectation on the WRITTEN file (LAMMPS data files carry labels and Pair Coeffs)
                     pev = [e for e in events if e["k"] == "assign_pair" and "elements" in e]
                     if o["pp"] and pev and a is not None and suffix(out_cli) == ".lmpdat" and "types" in a:
@@ -2092,6 +2138,46 @@ def extra_cases(ctx):
     return out
 
 
+def effect_cases(ctx, ntol, nff):
+    """worlds whose result is known by construction (see c20_effects): the tolerance judged by its effect on copies
+    deformed by a known amount in all orientations; re-parameterising replacements on rings that carry force-field terms"""
+    rng = ctx.rng
+    out = []
+    for _ in range(ntol):
+        small = rng.choice([None, "0.02"])
+        big = rng.choice(["0.1", "0.2"])
+        in_fmt = rng.choice(["lmpdat", "cif", "cml"])
+        kind = "tri" if (in_fmt != "cml" and rng.random() < 0.25) else "ortho"
+        w = fx.gen_tol_world(rng, kind, in_fmt, rng.choice(["cml", "lmpdat"]), rng.choice(["lmpdat", "cif"]),
+                             [DEFAULT_ATOL if small is None else float(small), float(big)])
+        n = len(w["pattern"])
+        fixed, moved = w["tol"]["ends"]
+        for mode, atol in (("find", small), ("replace", big), (rng.choice(["find", "replace"]), rng.choice([small, big]))):
+            row = {"atol": atol, "p": rng.choice([None, "1"]), "hints": "none", "replicate": rng.choice([None, None, [2, 1, 1], [1, 1, 2]]),
+                   "mic": None, "q": rng.random() < 0.3, "pp": rng.random() < 0.3, "mode": mode}
+            o = opts_of_row(row, w)
+            # axis hints: the two ends of the pattern's longest distance (any other axis makes the placement of a deformed
+            # copy a matter of the alignment procedure, not of the tolerance), any third atom as orientation point
+            h = rng.random()
+            if h < 0.25:
+                o["ap1"] = rng.choice([fixed, moved])
+            elif h < 0.5:
+                o["ap1"], o["ap2"] = rng.choice([(fixed, moved), (moved, fixed)])
+                if n > 2 and rng.random() < 0.5:
+                    o["op"] = rng.choice([i for i in range(n) if i not in (fixed, moved)])
+            out.append((w, o, rng.randint(0, 10 ** 6), "tolerance-by-effect"))
+    for _ in range(nff):
+        w = fx.gen_ff_world(rng, "tri" if rng.random() < 0.3 else "ortho", rng.choice(["cml", "lmpdat"]))
+        for mode, p in (("replace", None), ("replace", "0.5"), (rng.choice(["find", "none", "replace_only"]), None)):
+            row = {"atol": rng.choice([None, "0.1"]), "p": p, "hints": rng.choice(["none", "012", "0--"]),
+                   "replicate": rng.choice([None, None, [2, 1, 1]]), "mic": None, "q": rng.random() < 0.3, "pp": False, "mode": mode}
+            o = opts_of_row(row, w)
+            if o["replace"]:
+                o["replace"] = "$T/r.lmpdat"
+            out.append((w, o, rng.randint(0, 10 ** 6), "re-parameterisation"))
+    return out
+
+
 def fw_cases(ctx):
     rng = ctx.rng
     w = gen_world(rng, "ortho", "lmpdat", "cml", "lmpdat")
@@ -2113,6 +2199,7 @@ def all_cases(ctx, scale=1):
     cs += extra_cases(ctx)
     cs += fw_cases(ctx)
     cs += docs_cases(ctx.rng, thorough)
+    cs += effect_cases(ctx, ctx.n(4, 24) * scale, ctx.n(3, 18) * scale)
     if thorough:
         # "all random seeds": the random rows again under further seeds (fraction < 1 and symmetric patterns draw)
         more = [(w, o, ctx.rng.randint(0, 10 ** 6), "reseed") for (w, o, s, st) in cs
@@ -2291,7 +2378,7 @@ def search(ctx):
     saved = ctx.tier
     ctx.tier = "quick"
     try:
-        cases = generated_cases(ctx, 3) + extra_cases(ctx) + docs_cases(ctx.rng, False)
+        cases = effect_cases(ctx, 8, 6) + generated_cases(ctx, 3) + extra_cases(ctx) + docs_cases(ctx.rng, False)
         _evaluate(ctx, cases, with_model=False)
     finally:
         ctx.tier = saved
